@@ -22,7 +22,7 @@ MARKERS = ['INSTANCE-PATH', 'THISCOMPONENT', 'PRODUCERNAME', 'stage7', 'stage8']
 # ('direct-DIR/...' is a path the developer wrote on the command line: part of the arguments, not a name)
 
 
-CONTENTS = [b'contents', b'contents written later']
+CONTENTS = [b'contents written first', b'contents written later']     # same length: size and mtime cannot tell them apart
 
 
 def flatten(v):
@@ -121,7 +121,16 @@ class ComputeInfo(Target):
             f.__enter__ = Extern('file.__enter__', lambda c: f)
             f.__exit__ = Extern('file.__exit__', lambda c, *e: None)
             return f
+        def stat_(c, path, *a, **k):
+            # what the file system tells WITHOUT reading the file: a rewrite with contents of the same length within the
+            # same second leaves size and whole-second mtime as they were -- no function of the contents
+            if st.state == 'missing':
+                raise FileNotFoundError(path)
+            return Obj('stat_result', st_size=len(CONTENTS[0]), st_mtime=1700000000.25, st_mtime_ns=1700000000250000000,
+                       st_ino=7, st_dev=1, st_mode=0o100644)
         return {'open': Extern('open', open_),
+                'os.stat': Extern('os.stat', stat_), 'os.path.getmtime': Extern('os.path.getmtime', lambda c, p: 1700000000.25),
+                'os.path.getsize': Extern('os.path.getsize', lambda c, p: len(CONTENTS[0])),
                 'os.path.exists': Extern('os.path.exists', lambda c, p: st.state != 'missing'),
                 'os.path.isdir': Extern('os.path.isdir', lambda c, p: st.state == 'directory'),
                 'os.path.isfile': Extern('os.path.isfile', lambda c, p: st.state == 'file'),
@@ -141,7 +150,7 @@ class ComputeInfo(Target):
         if r is None:
             return cl
         flat = flatten(r)
-        md5 = hashlib.md5(b'contents').hexdigest()
+        md5 = hashlib.md5(CONTENTS[0]).hexdigest()
         cl.append(('record-is-free-of-names-paths-and-stages', not any(m in flat for m in MARKERS)))
         cl.append(('record-has-exactly-files-command-backend', set(r) == {'files', 'command', 'backend'}))
         cl.append(('executable-is-the-unresolved-one', r['command']['executable'] == 'bin/EXECUTABLE'))
